@@ -15,6 +15,7 @@ import SuccinctlyVerif.Proof.BPClose3
 import SuccinctlyVerif.Proof.BPSibling
 import SuccinctlyVerif.Proof.BPFast2
 import SuccinctlyVerif.Proof.BPSelect0
+import SuccinctlyVerif.Proof.BPSse3
 namespace SV.Props.C04
 open SV SV.BP SV.BPM
 
@@ -271,23 +272,44 @@ theorem next_sibling_subtree_size_eq (owned : Bool) (ws : List (BitVec 64)) (len
 example : (construct false true [0xFFFFFFFFFFFFFFCB#64] 6 .noSelect).map (fun I => (I.nextSibling 1, I.subtreeSize 0)) =
     some (some 3, some 2) := by decide +kernel
 
-/-- PARTIAL (`simd` build): `find_close` / `find_close_from` / `next_sibling` / `subtree_size` with
-the SSE4.1 L1/L2 builders are reduced to the scalar case *provided* the lane model of the SSE4.1
-builders yields the same L1/L2 arrays (then the two structures are identical). Missing:
-`sse41_builders_eq_scalar`, i.e. `buildL1Sse = buildL1` (all inputs) and `buildL2Sse = buildL2`
-(L1 lanes within ±2048) for the lane model (byte-shift prefix sums in wrapping `i16`, `PHMINPOSUW`
-with the 0x8000 bias, horizontal sum); the driver evaluates both builders on every request and
-reports `MODEL-SSE` on any difference, and the `simd` harness build is diffed against the model. -/
-theorem simd_reduces_to_scalar_partial (st : List (BitVec 64)) (len : Nat) (k : SelKind)
-    (h1 : buildL1Sse (if st.isEmpty ∨ len = 0 then [] else buildL0 st len) =
-          buildL1 (if st.isEmpty ∨ len = 0 then [] else buildL0 st len))
-    (h2 : buildL2Sse (buildL1 (if st.isEmpty ∨ len = 0 then [] else buildL0 st len)) =
-          buildL2 (buildL1 (if st.isEmpty ∨ len = 0 then [] else buildL0 st len))) :
-    mkBP true st len k = mkBP false st len k := by
-  unfold mkBP
-  simp only [if_true, Bool.false_eq_true, if_false, h1, h2]
+/-- **SSE4.1 builders = scalar builders.** The lane model of `build_l1_index_sse41` (byte-shift
+prefix sums in wrapping `i16`, `PHMINPOSUW` with the 0x8000 bias, horizontal sum, scalar tail)
+equals the scalar `i16` fold for *all* inputs; the lane model of `build_l2_index_sse41` (chunk-
+relative `i16` lanes, `i32` accumulation) equals the scalar `i32` fold whenever the L1 lanes are
+within ±2048, which `index_exact` guarantees; hence the `simd` build constructs the same structure. -/
+theorem sse41_builders_eq_scalar (st : List (BitVec 64)) (len : Nat) (k : SelKind) (hw : st.length = (len + 63) / 64) :
+    (∀ l0, buildL1Sse l0 = buildL1 l0) ∧
+    (∀ l1, (∀ x ∈ l1, BPX.Bd x.1 ∧ BPX.Bd x.2) → buildL2Sse l1 = buildL2 l1) ∧
+    mkBP true st len k = mkBP false st len k :=
+  ⟨BPX.buildL1Sse_eq, BPX.buildL2Sse_eq, BPX.mkBP_simd_eq st len k hw⟩
 
-example : buildL1Sse [(-1, 1), (0, 2)] = buildL1 [(-1, 1), (0, 2)] := by decide +kernel
+example : buildL1Sse [(-1, 1), (0, 2), (-128, -32768), (5, 7), (0, 0), (1, 1), (2, 2), (3, 3), (-4, 9)] =
+    buildL1 [(-1, 1), (0, 2), (-128, -32768), (5, 7), (0, 0), (1, 1), (2, 2), (3, 3), (-4, 9)] := by decide +kernel
+
+/-- Every constructor of the `simd` build yields the structure of the default build. -/
+theorem construct_simd_eq (simd owned : Bool) (ws : List (BitVec 64)) (len : Nat) (k : SelKind)
+    (hw : ws.length = (len + 63) / 64) (hlen : len < 2 ^ 32) :
+    construct simd owned ws len k = construct false owned ws len k := by
+  cases simd
+  · rfl
+  · obtain ⟨h1, _⟩ := stored_ok owned ws len hw
+    rw [construct_some true owned ws len k hlen, construct_some false owned ws len k hlen,
+      BPX.mkBP_simd_eq _ len k h1]
+
+/-- `find_close(p)`, `find_close_from`, `next_sibling(p)`, `subtree_size(p)` for the default *and*
+the `simd` build. -/
+theorem find_close_family_eq (simd owned : Bool) (ws : List (BitVec 64)) (len : Nat) (k : SelKind) (p : Nat)
+    (hw : ws.length = (len + 63) / 64) (hlen : len < 2 ^ 31) :
+    (construct simd owned ws len k).map (fun I => (I.findClose p, I.nextSibling p, I.subtreeSize p)) =
+      some (BP.findClose (bitsOf ws len) p, BP.nextSibling (bitsOf ws len) p, BP.subtreeSize (bitsOf ws len) p) := by
+  rw [construct_simd_eq simd owned ws len k hw (by omega)]
+  obtain ⟨h1, h2⟩ := stored_ok owned ws len hw
+  have hfc := BPF.findClose_eq _ len k h1 hlen p
+  rw [construct_some false owned ws len k (by omega), Option.map_some, hfc,
+    BPS.nextSibling_of_findClose false _ len k p h1 hfc, BPS.subtreeSize_of_findClose false _ len k p h1 hfc, h2]
+
+example : (construct true true [0xFFFFFFFFFFFFFFCB#64] 6 .noSelect).map (fun I => (I.findClose 0, I.nextSibling 1, I.subtreeSize 0)) =
+    some (some 5, some 3, some 2) := by decide +kernel
 
 /-! ### storage, stray bits, select support, build variant -/
 
@@ -319,6 +341,7 @@ theorem storage_strays_variant_irrelevant (simd simd' owned owned' : Bool) (ws w
 
 example : bitsOf [0xFFFFFFFFFFFFFFCB#64] 6 = bitsOf [0xB#64] 6 := by decide +kernel
 
+
 /-- `total_ones()` = number of opens among the first `len` bits (stray bits above `len` are not
 counted, for borrowed storage too), and `select0(k)` (binary search over `rank0`) = position of the
 `k`-th close by the left-to-right scan, `none` for `k ≥` number of closes — for every constructor,
@@ -334,6 +357,24 @@ theorem select0_eq (simd owned : Bool) (ws : List (BitVec 64)) (len : Nat) (k : 
 
 example : (construct false false [0xFFFFFFFFFFFFFFCB#64] 6 (.csPoppy 1)).map (fun I => (I.totalOnes, I.select0 1)) =
     some (3, some 4) := by decide +kernel
+
+/-- The same for the `find_close` family, `select0` and `total_ones`: owned vs borrowed storage,
+stray bits, select support / rate and build variant do not change the answers. -/
+theorem storage_strays_variant_irrelevant_2 (simd simd' owned owned' : Bool) (ws ws' : List (BitVec 64)) (len : Nat)
+    (k k' : SelKind) (p : Nat) (hw : ws.length = (len + 63) / 64) (hw' : ws'.length = (len + 63) / 64)
+    (hbits : bitsOf ws len = bitsOf ws' len) (hlen : len < 2 ^ 31) :
+    (construct simd owned ws len k).map (fun I => ((I.findClose p, I.nextSibling p, I.subtreeSize p), (I.totalOnes, I.select0 p))) =
+    (construct simd' owned' ws' len k').map (fun I => ((I.findClose p, I.nextSibling p, I.subtreeSize p), (I.totalOnes, I.select0 p))) := by
+  have a := find_close_family_eq simd owned ws len k p hw hlen
+  have a' := find_close_family_eq simd' owned' ws' len k' p hw' hlen
+  have b := select0_eq simd owned ws len k p hw (by omega)
+  have b' := select0_eq simd' owned' ws' len k' p hw' (by omega)
+  rw [construct_some simd owned ws len k (by omega)] at a b ⊢
+  rw [construct_some simd' owned' ws' len k' (by omega)] at a' b' ⊢
+  simp only [Option.map_some, Option.some.injEq] at a a' b b' ⊢
+  rw [Prod.mk.injEq] at *
+  rw [a.1, a.2, a'.1, a'.2, b.1, b.2, b'.1, b'.2, hbits]
+  exact ⟨rfl, rfl⟩
 
 /-! ### operations not closed in this delivery (stated parts) -/
 
